@@ -766,8 +766,12 @@ func ruleC12Case(c *Ctx) {
 	c.Floor("C12.CASE", 20)
 	_ = n
 	// listener: text tests on token text are case-folded
-	for _, fname := range []string{"VisitTerminal", "appendBoolNode"} {
-		fn := p.SSAFunc(p.Method("ast", "ToBoltListener", fname))
+	// (every function of package ast: decoders may live in tables or free functions)
+	inListener := map[*ssa.Function]bool{}
+	for _, fn := range listenerFuncs(c) {
+		inListener[fn] = true
+	}
+	for _, fn := range c.prodFuncs("ast") {
 		c.Analysed(FnName(fn))
 		// map lookups keyed by token text: if the map has letter-bearing keys the text must be folded
 		for _, b := range fn.Blocks {
@@ -821,6 +825,9 @@ func ruleC12Case(c *Ctx) {
 			if !isContains && !isParseBool {
 				continue
 			}
+			if isContains && !inListener[fn] {
+				continue // string tests on data (contains operator), not on token text
+			}
 			if cal.Name() == "EqualFold" {
 				c.OK("C12.CASE", FnName(fn)+": "+cal.Name(), p.Pos(call.Pos()), "case-insensitive comparison")
 				continue
@@ -869,4 +876,21 @@ func globalMapStringKeys(p *Prog, g *ssa.Global) []string {
 		}
 	}
 	return keys
+}
+
+// listenerFuncs: every method of the parse listener (and the closures inside them); the listener's
+// unexported helpers are expanded into these by the normalisation pass unless a rule names them.
+func listenerFuncs(c *Ctx) []*ssa.Function {
+	lst := c.P.Named("ast", "ToBoltListener")
+	var out []*ssa.Function
+	for _, fn := range c.prodFuncs("ast") {
+		root := fn
+		for root.Parent() != nil {
+			root = root.Parent()
+		}
+		if root.Signature.Recv() != nil && namedOf(root.Signature.Recv().Type()) == lst {
+			out = append(out, fn)
+		}
+	}
+	return out
 }
